@@ -78,6 +78,7 @@ def run(ctx):
             wantw = segwit_enc_ref(d['prefix_bech32'], 0, h20)
             wantws = segwit_enc_ref(d['prefix_bech32'], 0, h32)
             wantt = segwit_enc_ref(d['prefix_bech32'], 1, h32)
+            other_hrp = NETWORK_DEFINITIONS[rng.choice(nets)]['prefix_bech32']
             trials = [
                 ('pubkeyhash_to_addr base58', lambda: pubkeyhash_to_addr(h20, prefix=bytes.fromhex(d['prefix_address']), encoding='base58'), want58),
                 ('pubkeyhash_to_addr base58 hex hash', lambda: pubkeyhash_to_addr(h20.hex(), prefix=bytes.fromhex(d['prefix_address_p2sh']), encoding='base58'), want58s),
@@ -88,6 +89,8 @@ def run(ctx):
                 ('addr_convert bech32->base58', lambda: addr_convert(wantw, bytes.fromhex(d['prefix_address']), to_encoding='base58'), want58),
                 ('addr_convert bech32->base58 hex prefix', lambda: addr_convert(wantw, d['prefix_address_p2sh'], to_encoding='base58'), want58s),
                 ('addr_convert base58->base58 other prefix', lambda: addr_convert(want58, bytes.fromhex(d['prefix_address_p2sh'])), want58s),
+                ('addr_convert bech32 v1/32 -> bech32 of another network', lambda: addr_convert(wantt, other_hrp), segwit_enc_ref(other_hrp, 1, h32)),
+                ('addr_convert bech32 v0/32 -> bech32 of another network', lambda: addr_convert(wantws, other_hrp), segwit_enc_ref(other_hrp, 0, h32)),
             ]
             for name, fn, want in trials:
                 ctx.evals += 1
